@@ -6,9 +6,11 @@ import (
 	"bufio"
 	"fmt"
 	"io"
+	"os"
 	"os/exec"
 	"strconv"
 	"strings"
+	"sync"
 	"time"
 )
 
@@ -26,30 +28,31 @@ type SolverStats struct {
 	Queries, SatN, UnsatN, UnknownN int
 	Time                            time.Duration
 	Restarts                        int
+	ModelTime                       time.Duration
 }
 
 type Solver struct {
-	kind      string // z3 | z3-new | cvc5 | cvc5-int
-	timeoutMs int
-	cmd       *exec.Cmd
-	in        io.WriteCloser
-	out       *bufio.Reader
-	tt        *TermTable
-	defined   map[uint32]bool
-	declVars  int
-	declUFs   int
-	stack     []*Term
-	Stats     SolverStats
-	buf       strings.Builder
-	log       io.Writer
-	dead      bool
-	lastExtra bool
+	kind       string // z3 | z3-new | cvc5 | cvc5-int
+	timeoutMs  int
+	cmd        *exec.Cmd
+	in         io.WriteCloser
+	out        *bufio.Reader
+	tt         *TermTable
+	defined    map[uint32]bool
+	declVars   int
+	declUFs    int
+	stack      []*Term
+	Stats      SolverStats
+	buf        strings.Builder
+	log        io.Writer
+	dead       bool
+	lastExtra  bool
 	curTimeout int
-	abstract  bool              // emit div/rem by symbolic divisors as uninterpreted functions + lemmas (over-approximation)
-	absIn     map[uint32][]uint32 // term id -> abstracted sub-terms below it
-	absTerm   map[uint32]*Term
-	lemmaAt   map[uint32]int    // abstract term id -> stack depth its lemma was asserted at
-	absDecl   map[string]bool
+	abstract   bool                // emit div/rem by symbolic divisors as uninterpreted functions + lemmas (over-approximation)
+	absIn      map[uint32][]uint32 // term id -> abstracted sub-terms below it
+	absTerm    map[uint32]*Term
+	lemmaAt    map[uint32]int // abstract term id -> stack depth its lemma was asserted at
+	absDecl    map[string]bool
 }
 
 func NewSolver(kind string, timeoutMs int, tt *TermTable) *Solver {
@@ -63,7 +66,7 @@ func (s *Solver) start() {
 	var bin string
 	switch s.kind {
 	case "z3":
-		bin = "z3"
+		bin = z3Binary()
 		args = []string{"-in", "-memory:3072"}
 	case "z3-new":
 		bin = "z3-new"
@@ -93,6 +96,9 @@ func (s *Solver) start() {
 	s.declVars, s.declUFs = 0, 0
 	s.stack = nil
 	s.dead = false
+	if f := os.Getenv("VH_SMTLOG"); f != "" && s.log == nil && s.kind == "z3" && !s.abstract {
+		s.log, _ = os.Create(fmt.Sprintf("%s.%d", f, time.Now().UnixNano()))
+	}
 	s.send("(set-option :global-declarations true)\n")
 	if strings.HasPrefix(s.kind, "z3") {
 		s.send(fmt.Sprintf("(set-option :timeout %d)\n", s.timeoutMs))
@@ -446,8 +452,20 @@ func (s *Solver) Check(pc []*Term, extra *Term) SatResult {
 		s.Stats.UnknownN++
 	}
 	s.Stats.Time += time.Since(t0)
+	if slowLog && time.Since(t0) > 2*time.Second {
+		x := ""
+		if extra != nil {
+			x = extra.String()
+			if len(x) > 600 {
+				x = x[:600]
+			}
+		}
+		fmt.Fprintf(os.Stderr, "SLOW %s %.1fs res=%v pc=%d extra=%s\n", s.kind, time.Since(t0).Seconds(), res, len(pc), x)
+	}
 	return res
 }
+
+var slowLog = os.Getenv("VH_SLOW") != ""
 
 // After a Sat result with extra != nil the extra frame is still pushed so that GetModel can be asked;
 // DonePending pops it.
@@ -477,6 +495,12 @@ func (s *Solver) SetTimeout(ms int) {
 
 // GetModel returns values for the given variables (must follow a Sat result, before DonePending).
 func (s *Solver) GetModel(vars []*Term) Model {
+	t0 := time.Now()
+	defer func() { s.Stats.ModelTime += time.Since(t0) }()
+	return s.getModelRaw(vars)
+}
+
+func (s *Solver) getModelRaw(vars []*Term) Model {
 	m := Model{}
 	if len(vars) == 0 {
 		return m
@@ -582,6 +606,33 @@ func (s *Solver) GetValue(t *Term) uint64 {
 	if t.IsConst() {
 		return t.Val
 	}
+	t0 := time.Now()
+	defer func() { s.Stats.ModelTime += time.Since(t0) }()
+	if !t.HasUF && !s.abstract {
+		// evaluating a large shared term inside the solver is slow (macro expansion per call): fetch the values
+		// of the variables it depends on and evaluate here
+		var vars []*Term
+		seen := map[*Term]bool{}
+		var walk func(x *Term)
+		walk = func(x *Term) {
+			if x == nil || seen[x] {
+				return
+			}
+			seen[x] = true
+			if x.Op == OpVar {
+				vars = append(vars, x)
+				return
+			}
+			for _, a := range x.A {
+				walk(a)
+			}
+		}
+		walk(t)
+		if len(vars) <= 64 {
+			m := s.getModelRaw(vars)
+			return evalTerm(t, m, nil, map[*Term]uint64{})
+		}
+	}
 	r := s.ref(t)
 	s.flush()
 	s.send("(get-value (" + r + "))\n")
@@ -612,4 +663,22 @@ func (s *Solver) GetValue(t *Term) uint64 {
 		return v
 	}
 	return 0
+}
+
+// z3Binary: the primary z3. z3 4.8.12 (/usr/bin/z3) spends ~12 ms in every get-value once a few thousand
+// define-funs exist; the 5.1.0 build (z3-new) does not, so it is preferred when present. VH_Z3 overrides.
+var z3BinOnce sync.Once
+var z3Bin string
+
+func z3Binary() string {
+	z3BinOnce.Do(func() {
+		z3Bin = os.Getenv("VH_Z3")
+		if z3Bin == "" {
+			z3Bin = "z3"
+			if _, err := exec.LookPath("z3-new"); err == nil {
+				z3Bin = "z3-new"
+			}
+		}
+	})
+	return z3Bin
 }
